@@ -6,11 +6,11 @@
    empty container are the same value, nil list elements / map values / oneof payloads come back as
    empty messages, an empty non-nil singular bytes field comes back nil; [canon] additionally forgets
    map iteration order (what proto.Equal compares).
-   Scope of the proved statement: messages whose unknown-field sets are empty at every depth
-   ([strip_unknown v = v]); unknown bytes are covered by Properties/C14.v (kept byte for byte by the
-   decoder, re-emitted last by the encoder) and by the runner on every value. Nesting is bounded by
-   the decoder's own recursion limit (10000), as for the reference. *)
-From CP Require Import Extra RoundTrip CodecSize.
+   Unknown fields are part of the value: [unknowns_okb] (UnkOk.v) says that the unknown bytes carried
+   at every depth are a sequence of records the protobuf parser delimits, with numbers the message type
+   does not declare — what SetUnknown requires and what decoding produces. Nesting is bounded by the
+   decoder's own recursion limit (10000), as for the reference. *)
+From CP Require Import Extra UnkOk RoundTrip RoundTripUnk CodecSize.
 Local Open Scope N_scope.
 
 (* every scalar of every kind decodes back from its own payload: extreme integers (sign extension
@@ -30,6 +30,22 @@ Theorem roundtrip_det : forall sch, wf sch = true -> forall v mid, wt_msg sch mi
   strip_unknown v = v -> N.of_nat (val_depth v) < 9999 -> N.of_nat (length (emit sch true mid v)) < two63 ->
   exists r, pulsar_unmarshal sch false mid VNil (emit sch true mid v) = Ok r /\ canon r = canon (norm sch mid v).
 Proof. exact RoundTrip.roundtrip_det. Qed.
+
+(* the full statements, unknown fields included (of every wire type, nested groups, at every depth) *)
+Theorem roundtrip_nondet_unknown : forall sch, wf sch = true -> forall v mid, wt_msg sch mid v = true ->
+  unknowns_okb sch mid v = true -> N.of_nat (val_depth v) < 9999 -> N.of_nat (length (emit sch false mid v)) < two63 ->
+  pulsar_unmarshal sch false mid VNil (emit sch false mid v) = Ok (norm sch mid v).
+Proof. exact RoundTripUnk.roundtrip_nondet_unk. Qed.
+
+Theorem roundtrip_det_unknown : forall sch, wf sch = true -> forall v mid, wt_msg sch mid v = true ->
+  unknowns_okb sch mid v = true -> N.of_nat (val_depth v) < 9999 -> N.of_nat (length (emit sch true mid v)) < two63 ->
+  exists r, pulsar_unmarshal sch false mid VNil (emit sch true mid v) = Ok r /\ canon r = canon (norm sch mid v).
+Proof. exact RoundTripUnk.roundtrip_det_unk. Qed.
+
+(* the first two theorems are the special case without unknown fields *)
+Theorem stripped_values_are_unknown_ok : forall sch v mid, wt_msg sch mid v = true -> strip_unknown v = v ->
+  unknowns_okb sch mid v = true.
+Proof. exact RoundTripUnk.unknowns_okb_of_stripped. Qed.
 
 (* encoding never fails or panics (the model has no UTF-8 check: pulsar never validates; nested
    protobuf-go types do, which is what the "valid UTF-8" proviso of the property is about) *)
@@ -58,6 +74,13 @@ Definition ex_value : val :=
          VMap [ (VInt (-1), VNil); (VInt 7, VMsg [VBytes []; ex_inner] []) ];
          VList [ VNil; VMsg [VBytes [x00; xff]; VNil] [] ];
          VNil; VSome ex_inner ] [].
+Definition ex_unknown : val :=
+  VMsg [ VBits 0; VNil; VInt 0; VNil; VList [VMsg [VBytes [x01]; VNil] [xf8; x01; xff; xff; xff; xff; xff; xff; xff; xff; xff; x01]]; VNil; VNil ]
+       [xdb; x3e; x08; x01; xe3; x3e; x12; x01; x61; xe4; x3e; xdc; x3e; x7d; x01; x02; x03; x04].
+Example roundtrip_unknown_example :
+  wt_msg ex_schema 0 ex_unknown = true /\ unknowns_okb ex_schema 0 ex_unknown = true /\ strip_unknown ex_unknown <> ex_unknown /\
+  pulsar_unmarshal ex_schema false 0 VNil (emit ex_schema false 0 ex_unknown) = Ok (norm ex_schema 0 ex_unknown).
+Proof. vm_compute. repeat split; try reflexivity. discriminate. Qed.
 Example roundtrip_example :
   wf ex_schema = true /\ wt_msg ex_schema 0 ex_value = true /\ strip_unknown ex_value = ex_value /\
   pulsar_unmarshal ex_schema false 0 VNil (emit ex_schema false 0 ex_value) = Ok (norm ex_schema 0 ex_value) /\
